@@ -67,10 +67,14 @@ type tcase struct {
 	//   fd / fu       if-feature with a defined / an undefined feature                 ex  an extension statement
 	// a trailing "<" puts it before the value / position statement instead of after it.  The model never sees it.
 	Subs []string `json:"subs,omitempty"`
+	// ops path only.  After EVERY call the runner edits every object the accessors NameMap / ValueMap / Names /
+	// Values handed out (owned.go): by default one of 625 edit combinations derived from the case and the call
+	// index; Edits[i] != "" names the edits after call i explicitly (corpus cases; syntax: see handed.edit).
+	Edits []string `json:"edits,omitempty"`
 }
 
 func (c tcase) key() string {
-	return c.req() + " " + c.Hist + " " + c.Form + " " + strings.Join(c.Subs, ",")
+	return c.req() + " " + c.Hist + " " + c.Form + " " + strings.Join(c.Subs, ",") + strings.Join(c.Edits, ",")
 }
 
 func (c tcase) req() string {
@@ -91,7 +95,7 @@ func (c tcase) args() string {
 }
 
 func (c tcase) specReq() string {
-	op := "spec.assign"
+	op := "spec.steps" // the assignment of every prefix of the calls
 	if c.Path == "text" {
 		op = "spec.text"
 	}
@@ -137,18 +141,29 @@ func errClass(err error) string {
 // ToString, and the point lookups — and prints the four views; when the views do not agree with the maps
 // (or, for an enumeration, are not mutually inverse) it says so instead.
 func table(kind string, e *yang.EnumType) string {
+	t, _ := tableH(kind, e)
+	return t
+}
+
+// tableH is table; it also returns the objects the accessors handed out at this reading.
+func tableH(kind string, e *yang.EnumType) (string, *handed) {
+	h := &handed{names: e.Names(), values: e.Values(), nm: e.NameMap(), vm: e.ValueMap()}
+	return tableOf(kind, e, h), h
+}
+
+func tableOf(kind string, e *yang.EnumType, h *handed) string {
 	var names, values, nm, vm []string
-	for _, n := range e.Names() {
+	for _, n := range h.names {
 		names = append(names, lib.HexS(n))
 	}
-	for _, v := range e.Values() {
+	for _, v := range h.values {
 		values = append(values, strconv.FormatInt(v, 10))
 	}
-	m := e.NameMap()
+	m := h.nm
 	for _, n := range lib.SortedKeys(m) {
 		nm = append(nm, lib.HexS(n)+":"+strconv.FormatInt(m[n], 10))
 	}
-	v := e.ValueMap()
+	v := h.vm
 	var ks []int64
 	for k := range v {
 		ks = append(ks, k)
@@ -161,8 +176,8 @@ func table(kind string, e *yang.EnumType) string {
 		" namemap=" + strings.Join(nm, ",") + " valuemap=" + strings.Join(vm, ",")
 	bad := func(what string) string { return "inconsistent-views(" + what + "): " + out }
 	// the views are copies of the maps
-	if len(m) != len(e.ToInt) || len(e.Names()) != len(e.ToInt) || len(e.Values()) != len(e.ToInt) {
-		return bad(fmt.Sprintf("NameMap/Names/Values have %d/%d/%d entries, ToInt has %d", len(m), len(e.Names()), len(e.Values()), len(e.ToInt)))
+	if len(m) != len(e.ToInt) || len(h.names) != len(e.ToInt) || len(h.values) != len(e.ToInt) {
+		return bad(fmt.Sprintf("NameMap/Names/Values have %d/%d/%d entries, ToInt has %d", len(m), len(h.names), len(h.values), len(e.ToInt)))
 	}
 	for n, val := range e.ToInt {
 		if got, ok := m[n]; !ok || got != val {
@@ -204,7 +219,10 @@ func dump(kind string, e *yang.EnumType, errs []string) string {
 	if e == nil {
 		return "errs=" + strings.Join(errs, ",") + " no-type"
 	}
-	t := table(kind, e)
+	return dump1(table(kind, e), errs)
+}
+
+func dump1(t string, errs []string) string {
 	if strings.HasPrefix(t, "inconsistent-views") {
 		return t
 	}
@@ -396,6 +414,57 @@ func tables(c tcase, ms *yang.Modules) []*yang.EnumType {
 	return []*yang.EnumType{pick(typeOf(yang.ToEntry(ms.Modules["m"]), "l"))}
 }
 
+// origin: a table reached by another route than the leaf's Entry: the statement tree (the leaf's own type
+// statement, the typedefs of a chain, the leaf inside the grouping).  After the caller edited the views it got
+// from the Entry these must still hold the same table as the Entry.
+type origin struct {
+	what string
+	e    *yang.EnumType
+}
+
+func origins(c tcase, ms *yang.Modules) []origin {
+	m := ms.Modules["m"]
+	if m == nil {
+		return nil
+	}
+	pick := func(t *yang.YangType) *yang.EnumType {
+		if t == nil {
+			return nil
+		}
+		if c.Kind == "b" {
+			return t.Bit
+		}
+		return t.Enum
+	}
+	ofType := func(t *yang.Type) *yang.EnumType {
+		if t == nil {
+			return nil
+		}
+		return pick(t.YangType)
+	}
+	var out []origin
+	switch c.Form {
+	case "", "typedef", "chain":
+		for _, l := range m.Leaf {
+			out = append(out, origin{"the type statement of leaf " + l.Name, ofType(l.Type)})
+		}
+		for _, td := range m.Typedef {
+			out = append(out, origin{"typedef " + td.Name, pick(td.YangType)}, origin{"the type statement of typedef " + td.Name, ofType(td.Type)})
+		}
+	case "leaflist":
+		for _, l := range m.LeafList {
+			out = append(out, origin{"the type statement of leaf-list " + l.Name, ofType(l.Type)})
+		}
+	case "grouping":
+		for _, g := range m.Grouping {
+			for _, l := range g.Leaf {
+				out = append(out, origin{"the type statement of leaf " + l.Name + " in grouping " + g.Name, ofType(l.Type)})
+			}
+		}
+	}
+	return out
+}
+
 func isNear(form string) bool { return form == "n0" || form == "nm" || form == "nv" || form == "n+" }
 
 // expectDump is the dump of a table given as written members "name:value" (no errors).
@@ -438,7 +507,7 @@ func expectDump(members []string) string {
 
 // nearAnswer reads back every member of the case's kind from the union of a near-twin case: there must
 // be two, the first holding the near twin's table; the answer is then the dump of the second.
-func nearAnswer(c tcase, ms *yang.Modules, errs []string) string {
+func nearAnswer(c tcase, ms *yang.Modules, errs []string, mode int) string {
 	l := yang.ToEntry(ms.Modules["m"]).Dir["l"]
 	if l == nil || l.Type == nil {
 		return dump(c.Kind, nil, errs)
@@ -460,10 +529,23 @@ func nearAnswer(c tcase, ms *yang.Modules, errs []string) string {
 		}
 		return fmt.Sprintf("union-keeps-%d-of-2-members errs=%s: %s", len(tabs), strings.Join(errs, ","), strings.Join(ds, " ## "))
 	}
-	if got, want := dump(c.Kind, tabs[0], nil), expectDump(c.Twin); got != want {
+	// the caller edits what it was handed from the first member before the second is read, then what it was
+	// handed from the second; both members are then read again
+	t0, h0 := tableH(c.Kind, tabs[0])
+	h0.scribble(mode)
+	if got, want := dump1(t0, nil), expectDump(c.Twin); got != want {
 		return "near-twin-table-changed: " + got + " want " + want
 	}
-	return dump(c.Kind, tabs[1], errs)
+	t1, h1 := tableH(c.Kind, tabs[1])
+	h1.scribble(mode + 1)
+	for k, t := range []string{t0, t1} {
+		if again := table(c.Kind, tabs[k]); again != t {
+			_, h := tableH(c.Kind, tabs[k])
+			return fmt.Sprintf("%s(%s; union member %d, edit mode %d): read %s ## after the caller edited what it was handed, read %s", aliasedMark, aliasWhy(tabs[k], h), k+1, mode+k,
+				strings.ReplaceAll(t, " ", "_"), strings.ReplaceAll(again, " ", "_"))
+		}
+	}
+	return dump1(t1, errs)
 }
 
 // runGo runs the real code on one case.
@@ -478,8 +560,12 @@ func runGo(c tcase) (out string) {
 		if c.Kind == "b" {
 			e = yang.NewBitfield()
 		}
-		// after EVERY call every view is read back (a view read between two calls must not go stale)
+		// after EVERY call every view is read back (a view read between two calls must not go stale), every
+		// object the reading was handed is edited by the caller, and so are (again) the objects handed out before
+		// the call: the next reading and the next calls must not notice
 		var steps []string
+		var held *handed
+		key := c.key()
 		for i := range c.Names {
 			var err error
 			if c.Vals[i] == "-" {
@@ -495,7 +581,13 @@ func runGo(c tcase) (out string) {
 			if err != nil {
 				cl = errClass(err)
 			}
-			steps = append(steps, "err="+cl+" "+table(c.Kind, e))
+			edits := ""
+			if i < len(c.Edits) {
+				edits = c.Edits[i]
+			}
+			var t string
+			t, held = ownedRead(c.Kind, e, held, modeOf(key, i), edits)
+			steps = append(steps, "err="+cl+" "+t)
 		}
 		return strings.Join(steps, stepSep)
 	}
@@ -510,14 +602,50 @@ func runGo(c tcase) (out string) {
 		}
 	}
 	var dumps []string
+	key := c.key()
 	look := func(raw []error) {
 		errs := classify(c, firstLine, raw)
+		mode := modeOf(key, len(dumps))
 		if isNear(c.Form) {
-			dumps = append(dumps, nearAnswer(c, ms, errs))
+			dumps = append(dumps, nearAnswer(c, ms, errs, mode))
 			return
 		}
-		for _, e := range tables(c, ms) {
-			dumps = append(dumps, project(c, dump(c.Kind, e, errs)))
+		// every use is read, and the caller edits every object that reading was handed, before the next use is
+		// read; then every use (and the typedefs / the grouping's own leaf the uses come from) is read again
+		tabs := tables(c, ms)
+		first := make([]string, len(tabs))
+		for k, e := range tabs {
+			if e == nil {
+				first[k] = dump(c.Kind, e, errs)
+				continue
+			}
+			t, h := tableH(c.Kind, e)
+			h.scribble(mode + k)
+			first[k] = dump1(t, errs)
+		}
+		for k, e := range tabs {
+			if e == nil {
+				continue
+			}
+			if again := dump(c.Kind, e, errs); again != first[k] {
+				_, h := tableH(c.Kind, e)
+				first[k] = fmt.Sprintf("%s(%s; use %d of %d, edit mode %d): read %s ## after the caller edited what it was handed, read %s", aliasedMark, aliasWhy(e, h), k+1, len(tabs), mode+k,
+					strings.ReplaceAll(first[k], " ", "_"), strings.ReplaceAll(again, " ", "_"))
+			}
+		}
+		if tabs[0] != nil && !strings.HasPrefix(first[0], aliasedMark) {
+			for _, o := range origins(c, ms) {
+				if o.e == nil {
+					continue
+				}
+				if got := dump(c.Kind, o.e, errs); got != first[0] {
+					first[0] = fmt.Sprintf("origin-differs(%s): the leaf holds %s ## %s holds %s", o.what, strings.ReplaceAll(first[0], " ", "_"), o.what, strings.ReplaceAll(got, " ", "_"))
+					break
+				}
+			}
+		}
+		for _, d := range first {
+			dumps = append(dumps, project(c, d))
 		}
 	}
 	switch c.Hist {
@@ -599,8 +727,15 @@ func project(c tcase, ans string) string {
 	return first
 }
 
-// judge: does the Go answer g satisfy the specification answer s (na | none | ok table)?
+// judge: does the Go answer g satisfy the specification answer s (na | none | ok table; on the ops path one
+// such answer per prefix of the calls, separated by stepSep)?
 func judge(c tcase, g, s string) (bool, string) {
+	if i := strings.Index(g, aliasedMark); i >= 0 {
+		return false, "a value handed out by an accessor (NameMap/ValueMap/Names/Values) is not the caller's own: the table must be the one of the Set/SetNext calls alone (views_inverse, fold_eq_rfc), but editing the handed-out object changed it: " + g[i:]
+	}
+	if i := strings.Index(g, "origin-differs"); i >= 0 {
+		return false, "the table reached through the statement tree is not the table of the Entry: " + g[i:]
+	}
 	if s == "na" {
 		return true, "outside the claimed literal form"
 	}
@@ -614,13 +749,18 @@ func judge(c tcase, g, s string) (bool, string) {
 		return true, "the runs differ, each satisfies the specification"
 	}
 	if c.Path == "ops" {
-		// per-call blocks: every block must be self-consistent; the last table with the collected errors is
-		// judged against the RFC assignment
+		// per-call blocks: every block must be self-consistent; the table after EVERY call, with the errors
+		// collected so far, is judged against the RFC assignment of the calls made so far
 		if strings.Contains(g, "inconsistent-views") {
 			return false, "a view read back between two calls disagrees with the maps or the views are not mutually inverse: " + g
 		}
 		blocks := strings.Split(g, stepSep)
+		specs := strings.Split(s, stepSep)
+		if len(specs) != len(blocks) {
+			return false, "Go did not produce a result: " + g
+		}
 		var errs []string
+		what := ""
 		for i, b := range blocks {
 			if !strings.HasPrefix(b, "err=") {
 				return false, "Go did not produce a result: " + g
@@ -628,10 +768,18 @@ func judge(c tcase, g, s string) (bool, string) {
 			if cl := strings.TrimPrefix(strings.Fields(b)[0], "err="); cl != "-" {
 				errs = append(errs, strconv.Itoa(i)+":"+cl)
 			}
+			var ok bool
+			if ok, what = judgeTable(c, "errs="+strings.Join(errs, ",")+b[strings.Index(b, " "):], specs[i]); !ok {
+				return false, fmt.Sprintf("after call %d of %d: %s", i+1, len(blocks), what)
+			}
 		}
-		last := blocks[len(blocks)-1]
-		g = "errs=" + strings.Join(errs, ",") + last[strings.Index(last, " "):]
+		return true, what
 	}
+	return judgeTable(c, g, s)
+}
+
+// judgeTable: one table with its errors against one specification answer.
+func judgeTable(c tcase, g, s string) (bool, string) {
 	if strings.HasPrefix(g, "union-keeps-") {
 		return false, "a member of the union lost its table (taken for a duplicate of a different type, or dropped): " + g
 	}
@@ -990,6 +1138,20 @@ func main() {
 			oddCount++
 		}
 	}
+	// corpus: call sequences with the caller's edits of the handed-out views written out (the first is the
+	// sequence of seeded/C14-k22: hide a member in the name view and one in the value view, add a local key,
+	// then reuse the names and values)
+	corpus := []tcase{
+		{Kind: "e", Path: "ops", Names: []string{"a", "b", "c", "a", "z", "local", "n"}, Vals: []string{"5", "-", "-2", "9", "6", "50", "-"},
+			Edits: []string{"", "", "nm-a;vm-6;nm+local:100"}},
+		{Kind: "e", Path: "ops", Names: []string{"a", "b", "c", "d"}, Vals: []string{"-", "-", "-", "-"}, Edits: []string{"", "", "nm-c;vm-2"}},
+		{Kind: "e", Path: "ops", Names: []string{"a", "b", "c"}, Vals: []string{"7", "-", "-"}, Edits: []string{"nm+z:2147483647;vm+2147483647:z", "vm-8;nm-b"}},
+		{Kind: "b", Path: "ops", Names: []string{"a", "b", "a", "c"}, Vals: []string{"4294967294", "-", "3", "-"}, Edits: []string{"", "nm-a;vm-4294967295"}},
+		{Kind: "b", Path: "ops", Names: []string{"a", "b", "c"}, Vals: []string{"3", "3", "-"}, Edits: []string{"nm+c:9", "vm+3:a;vm+4:q"}},
+	}
+	for _, c := range corpus {
+		bases = append(bases, base{c: c})
+	}
 	// seeded random longer sequences (length 4..10), both paths
 	nRand := 20000
 	if f.Thorough() {
@@ -1144,13 +1306,18 @@ func main() {
 			byHist[c.Hist+"/"+fm]++
 		}
 	}
+	perPlace := map[string]int{}
 	nViol, nHold := 0, 0 // separate caps: violating disagreements are never crowded out by harmless ones
 	accepted, rejected, na := int64(0), int64(0), int64(0)
 	for i, c := range cases {
+		lastSpec := specAns[i]
+		if k := strings.LastIndex(lastSpec, stepSep); k >= 0 {
+			lastSpec = lastSpec[k+len(stepSep):]
+		}
 		switch {
-		case specAns[i] == "na":
+		case lastSpec == "na":
 			na++
-		case specAns[i] == "none":
+		case lastSpec == "none":
 			rejected++
 		default:
 			accepted++
@@ -1173,7 +1340,9 @@ func main() {
 			kind = "crash"
 		}
 		if v == "violates" || kind == "crash" {
-			if nViol >= 50 {
+			// at most 8 per path and placement, so that the recorded ones show every place the fault reaches
+			place := c.Path + "/" + c.Form
+			if perPlace[place]++; nViol >= 50 || perPlace[place] > 8 {
 				res.Count("violating_disagreements_not_recorded", 1)
 				continue
 			}
@@ -1186,7 +1355,7 @@ func main() {
 			nHold++
 		}
 		res.AddDisagreement(lib.Disagreement{Kind: kind, Input: c, Go: goOut[i], Model: ans[i], SpecVerdict: v,
-			What: fmt.Sprintf("%s %s: spec says %s; %s", map[string]string{"e": "enumeration", "b": "bits"}[c.Kind], c.Path, specAns[i], what), Replay: c})
+			What: fmt.Sprintf("%s %s: %s; spec says %s", map[string]string{"e": "enumeration", "b": "bits"}[c.Kind], c.Path, what, specAns[i]), Replay: c})
 	}
 	res.Evaluations = int64(len(cases))
 	res.DistinctNontrivial = nontrivial
@@ -1201,10 +1370,21 @@ func main() {
 		"and as member 2 of a union behind a near twin (the surviving table with the zero-valued member renamed / the maximum-valued member renamed / one value changed / one more member), where every member of the union is read back and both tables must be intact; the random ones get one random placement. "+
 		"Members of text lists also carry substatements that must not influence the numbering - status current/deprecated/obsolete, description, reference, if-feature (defined and undefined feature), an extension statement, before or after the value - "+
 		"on explicit and implicit members in every position: lists of length 1 and 2 over member position x substatement, a seeded sample of the lists of length 3 (one member / every member decorated), a quarter of the members of the random lists; in a leaf (histories a, b) and a seeded quarter (thorough: all) of the placements; the model never sees them. "+
-		"On the direct path every view (Names, Values, NameMap, ValueMap, the maps ToInt and ToString, point lookups) is read back after EVERY Set/SetNext call and compared with the model's table after that prefix; the views must equal the maps and, for enumerations, be mutually inverse at every step. "+
+		"On the direct path every view (Names, Values, NameMap, ValueMap, the maps ToInt and ToString, point lookups) is read back after EVERY Set/SetNext call and compared with the model's table after that prefix; the views must equal the maps and, for enumerations, be mutually inverse at every step, and the table after every call is judged against the RFC assignment of the calls made so far. "+
+		"Every value an accessor hands out is treated as the caller's own; covered accessors (every method of EnumType that returns a map or a slice): NameMap(), ValueMap(), Names(), Values() - the exported fields ToInt / ToString are the table itself, not views, and are only read. "+
+		"After EVERY reading (after every call on the direct path; after every run and for every use on the text path) the runner edits each object it was handed - maps: delete a key / insert a fresh key / overwrite a value / clear / rename (delete + insert); slices: reverse / overwrite an element / append and overwrite / overwrite the whole backing array up to its capacity / truncate and append; "+
+		"one of 625 combinations, derived from the case and the step - edits once more, after the next call, the objects handed out before it, reads again and continues the call sequence: every reading and every later call must be what the model says for the Set/SetNext sequence WITHOUT the edits (specification: views_inverse, fold_eq_rfc, which speak about the calls alone). "+
+		"On the text path the same is done with the tables reached through Entry.Type.Enum / .Bit after Process: of a leaf, a leaf-list, a typedef use, a chain of typedefs, both uses of a grouping (the views of the first use are edited before the second use is read), every kept member of a union (the near twin's views are edited before the generated member is read), a deviated leaf; "+
+		"then every use is read again, the tables reached through the statement tree (the type statement of the leaf, each typedef and its type statement, the leaf inside the grouping) must hold the Entry's table, and in the histories b, c, d the next Process / read follows the edits. "+
+		fmt.Sprintf("%d corpus call sequences name the caller's edits explicitly (among them the sequence of seeded/C14-k22). ", len(corpus))+
 		"Every Go answer (errors as member index + class, Names, Values, NameMap, ValueMap, point lookups) of every run is compared with the compiled model and judged against the RFC 7950 assignment. "+
 		"distinct_nontrivial = distinct cases with at least two members (the assignment rule is about earlier members)", maxLen, oddCount, nRand)
 	res.Distribution["enumerated_sequences"] = enumerated
+	res.Distribution["accessors_whose_results_are_edited"] = coveredAccessors
+	if u := uncoveredAccessors(); len(u) > 0 {
+		res.Distribution["accessors_returning_map_slice_pointer_not_covered"] = u
+		res.Notes = append(res.Notes, "EnumType has accessors returning a map, slice or pointer whose results are not edited by the runner: "+strings.Join(u, ", "))
+	}
 	res.Distribution["lists_with_member_substatements"] = decorated
 	res.Distribution["cases_by_kind_and_path"] = byKey
 	res.Distribution["text_cases_by_history_and_form"] = byHist
